@@ -11,6 +11,7 @@ The full statement `Confined (getW f)` is FALSE for the code as written: `confin
 `pct_not_decoded`, and — for the minimal repair — `confined_repaired` outright.
 -/
 import SophiaProofs.Lemmas.Loader
+import SophiaModel.Gen.LoaderSites
 
 namespace SophiaProofs.C19
 open SophiaModel SophiaModel.Loader SophiaProofs.Loader
@@ -176,11 +177,101 @@ theorem confined_repaired (f : Features) : Confined (get' f) := by
   intro fs caches cfg iri p d ct hnew h
   exact opened_inside (new_ok_cfg fs caches cfg hnew).2 h (Or.inl rfl)
 
-/-- the full property for the code currently in /repo, provided the extractor found the guard there -/
-theorem confined_current (f : Features) (hg : Gen.LoaderExts.guardPresent = true) :
+/-- the full property for whatever the extractor found in /repo, provided it found the guard there -/
+theorem confined_of_guard (f : Features) (hg : Gen.LoaderExts.guardPresent = true) :
     Confined (getCur f) := by
   intro fs caches cfg iri p d ct hnew h
   exact opened_inside (new_ok_cfg fs caches cfg hnew).2 h (Or.inl hg)
+
+/-- **guard_present**: the table regenerated from /repo's `_local.rs` on every run says that `get` rejects
+remainders with a `..`/root component.  If the guard disappears from /repo (or is rewritten into
+something the extractor does not recognise as equivalent) THIS obligation fails. -/
+theorem guard_present : Gen.LoaderExts.guardPresent = true := by decide
+
+/-- **confined_current**: THE PROPERTY, unconditionally, for the code currently in /repo (`getCur` is what
+the driver executes against the real `LocalLoader::get`), every feature set, every IRI. -/
+theorem confined_current (f : Features) : Confined (getCur f) := confined_of_guard f guard_present
+
+/-- the dichotomy behind `confined_current`: the generated flag decides the property either way -/
+theorem current_status :
+    (Gen.LoaderExts.guardPresent = true ∧ ∀ f, Confined (getCur f)) ∨
+    (Gen.LoaderExts.guardPresent = false ∧ ¬ Confined (getCur allFeats)) :=
+  Or.inl ⟨guard_present, confined_current⟩
+
+/-! ### the property in terms of FILES: the bytes returned are the content of a file below the directory -/
+
+/-- the bytes `d` are the content of a file located at or below the directory of a configured pair whose
+namespace prefixes the fragment-less IRI (`lookup` is the abstract file system: no symlinks) -/
+def ConfinedFile (cfg : Cfg) (fs : FS) (iri0 d : Str) : Prop :=
+  ∃ nd ∈ cfg, nd.1 <+: stripFragment iri0 ∧
+    ∃ loc, osResolve nd.2 <+: loc ∧ fs.lookup loc = some (.file d)
+
+/-- **confined_files**: "either reports an error or returns the content of a file located inside the
+directory mapped to a configured namespace that prefixes the IRI" — for the code in /repo, all inputs. -/
+theorem confined_files (f : Features) (fs : FS) (caches : List (Str × Str)) (cfg : Cfg) (iri p d ct : Str)
+    (hnew : Loader.new fs caches = .ok cfg) (h : getCur f cfg fs iri = .ok p d ct) :
+    ConfinedFile cfg fs iri d := by
+  obtain ⟨nd, hmem, hpre, hin⟩ := confined_current f fs caches cfg iri p d ct hnew h
+  obtain ⟨_, _, _, _, hp, hread, _, _⟩ := getG_opened (new_ok_cfg fs caches cfg hnew).2 h
+  exact ⟨nd, hmem, hpre, osResolve p, hin, read_reads_resolved fs p d hread⟩
+
+/-! ### IRIs that come from links followed in loaded data -/
+
+theorem stripFragment_idem (s : Str) : stripFragment (stripFragment s) = stripFragment s :=
+  strip_of_no_hash _ (hash_not_mem_strip s)
+
+/-- `ConfinedAt` only looks at the fragment-less IRI -/
+theorem confinedAt_strip (cfg : Cfg) (iri p : Str) :
+    ConfinedAt cfg (stripFragment iri) p ↔ ConfinedAt cfg iri p := by
+  unfold ConfinedAt; rw [stripFragment_idem]
+
+/-- **link_confined**: whatever `Resource::get_neighbour` reads when it follows an IRI `t` found in loaded
+data (through `get_resource`, `get_any_resource`, `get_all_resources`, `get_resource_items`, `pred_*`, typed
+or not: all of them are `get_neighbour`), with any notion of "absolute IRI" and any current base, was read
+inside a directory whose namespace prefixes `t`: a link has exactly the power of a caller-supplied IRI. -/
+theorem link_confined (f : Features) (isAbs : Str → Bool) (fs : FS) (caches : List (Str × Str)) (cfg : Cfg)
+    (base : Option Str) (t p d ct : Str) (hnew : Loader.new fs caches = .ok cfg)
+    (h : getNeighbour isAbs (getCur f) cfg fs base t = .loaded (.ok p d ct)) :
+    ConfinedAt cfg t p ∧ ConfinedFile cfg fs t d := by
+  unfold getNeighbour at h
+  split at h
+  · cases h
+  · split at h
+    · split at h
+      · injection h with h
+        unfold getResourceRead at h
+        have h1 := confined_current f fs caches cfg _ p d ct hnew h
+        have h2 := confined_files f fs caches cfg _ p d ct hnew h
+        rw [confinedAt_strip, confinedAt_strip] at h1
+        refine ⟨h1, ?_⟩
+        unfold ConfinedFile at h2 ⊢
+        rw [stripFragment_idem, stripFragment_idem] at h2
+        exact h2
+      · cases h
+    · cases h
+
+/-- **ctx_confined**: a remote JSON-LD context handed to the JSON-LD processor by the document loader that
+`get_graph` installs is the content of a file inside a directory whose namespace prefixes its URL. -/
+theorem ctx_confined (f : Features) (fs : FS) (caches : List (Str × Str)) (cfg : Cfg) (url p d : Str)
+    (hnew : Loader.new fs caches = .ok cfg) (h : ctxFetch (getCur f) cfg fs url = some (p, d)) :
+    ConfinedAt cfg url p ∧ ConfinedFile cfg fs url d := by
+  unfold ctxFetch at h
+  split at h
+  · rename_i p' d' ct hg
+    split at h
+    · injection h with h; injection h with e1 e2; subst e1; subst e2
+      exact ⟨confined_current f fs caches cfg url _ _ ct hnew hg, confined_files f fs caches cfg url _ _ ct hnew hg⟩
+    · cases h
+  · cases h
+
+/-- **reads_only_in_get**: the premise under which the theorems about `get` speak for the whole crate —
+the only file-system accesses of `sophia_resource` (table regenerated from every non-test source file of
+resource/src: `fs::`, `File::`, `read*`, `metadata`, `is_dir`, `exists`, `canonicalize`, `include_*!`,
+process/net/os/libc/`unsafe` tokens) are `check`'s `is_dir` and the single `read(..)` inside `get`. -/
+theorem reads_only_in_get :
+    Gen.LoaderSites.sites =
+      [("loader/_local.rs", ".is_dir(", 1), ("loader/_local.rs", "read(", 1), ("loader/_local.rs", "std::fs::read", 1)] ∧
+    Gen.LoaderSites.readCallsInGet = 1 := by decide
 
 /-! ### refutation of the full statement for the code as written -/
 
@@ -215,6 +306,11 @@ theorem escape_retry :
 theorem confined_refuted : ¬ Confined (getW allFeats) := by
   intro h
   exact escape_dotdot.2.2 (h wFs wCfg wCfg _ _ _ _ escape_dotdot.1 escape_dotdot.2.1)
+
+/-- the unguarded text is what `getCur` would be if the flag regressed: the refutation applies to it -/
+theorem unguarded_refuted (hg : Gen.LoaderExts.guardPresent = false) : ¬ Confined (getCur allFeats) := by
+  have e : getCur allFeats = getW allFeats := by unfold getCur getW; rw [hg]
+  rw [e]; exact confined_refuted
 
 /-- the repaired code rejects both witnesses -/
 theorem repaired_rejects_witnesses :
@@ -291,5 +387,28 @@ example : getW allFeats wCfg wFs "http://ex.org/ns/%2e%2e/secret.ttl".toList = .
 -- `read_reads_resolved` on the escaping path: the bytes are those of /srv/secret.ttl
 example : osRead wFs "/srv/data/../secret.ttl".toList = .ok "S".toList ∧
     osResolve "/srv/data/../secret.ttl".toList = ["srv".toList, "secret.ttl".toList] := ⟨by rfl, by decide⟩
+
+-- `confined_files` / `confined_current`: the code in /repo serves a file below the directory, through the retry loop
+example : Loader.new wFs wCfg = .ok wCfg ∧
+    getCur allFeats wCfg wFs "http://ex.org/ns/a#frag".toList
+      = .ok "/srv/data/a.ttl".toList "A".toList "text/turtle".toList ∧
+    wFs.lookup ["srv".toList, "data".toList, "a.ttl".toList] = some (.file "A".toList) := ⟨by rfl, by decide, by decide⟩
+-- `link_confined`: a link to another document is loaded (and confined), a link into the same document is not
+example : getNeighbour (fun _ => true) (getCur allFeats) wCfg wFs (some "http://ex.org/ns/doc.ttl".toList)
+      "http://ex.org/ns/a#it".toList = .loaded (.ok "/srv/data/a.ttl".toList "A".toList "text/turtle".toList) ∧
+    getNeighbour (fun _ => true) (getCur allFeats) wCfg wFs (some "http://ex.org/ns/doc.ttl".toList)
+      "http://ex.org/ns/doc.ttl#other".toList = .sameDoc ∧
+    getNeighbour (fun _ => true) (getCur allFeats) wCfg wFs (some "http://ex.org/ns/doc.ttl".toList)
+      "http://ex.org/ns/../secret.ttl".toList = .loaded (.err .unsupported) := ⟨by decide, by decide, by decide⟩
+-- `ctx_confined`: a served JSON-LD context is handed over, a Turtle file is not, an escaping URL is refused
+def jFs : FS := ⟨[(["srv".toList, "data".toList], .dir),
+                  (["srv".toList, "data".toList, "c.jsonld".toList], .file "{}".toList),
+                  (["srv".toList, "data".toList, "a.ttl".toList], .file "A".toList),
+                  (["srv".toList, "secret.jsonld".toList], .file "S".toList)]⟩
+example : ctxFetch (getCur allFeats) wCfg jFs "http://ex.org/ns/c".toList = some ("/srv/data/c.jsonld".toList, "{}".toList) ∧
+    ctxFetch (getCur allFeats) wCfg jFs "http://ex.org/ns/a.ttl".toList = none ∧
+    ctxFetch (getCur allFeats) wCfg jFs "http://ex.org/ns/../secret.jsonld".toList = none ∧
+    ctxFetch (getW allFeats) wCfg jFs "http://ex.org/ns/../secret.jsonld".toList
+      = some ("/srv/data/../secret.jsonld".toList, "S".toList) := ⟨by decide, by decide, by decide, by decide⟩
 
 end SophiaProofs.C19
